@@ -264,71 +264,75 @@ def _single_live_arm(c, m):
 
 def linear_algebra(ctx):
     c = ctx.crate
-    # ---- product
-    fn = ctx.fn(T + "product")
-    m = arms.data_match(fn["body"])
-    live = _single_live_arm(c, m)
-    where = c.loc(fn, m)
-    ok = False
-    detail = ""
-    if len(live) == 1:
-        ra = arms.rank_arms(m)[0]
-        hs = list(ra["roots"])  # [data1, data2]
-        body = live[0]["body"]
-        maps = [x for x in walk(body) if x.get("k") == "mcall" and x["name"] == "map"]
-        if len(maps) == 2:
-            outer = [x for x in maps if any(y is not x and y.get("k") == "mcall" and y["name"] == "map" for y in walk(x["args"][0]))]
-            if len(outer) == 1:
-                o = outer[0]
-                i = [x for x in maps if x is not o][0]
-                so, si = strip(o["recv"]), strip(i["recv"])
-                if (so.get("k") == "mcall" and so["name"] == "iter" and si.get("k") == "mcall" and si["name"] == "iter"
-                        and e4.local_hid(so["recv"]) == hs[0] and e4.local_hid(si["recv"]) == hs[1]):
-                    a = pat_binds(strip(o["args"][0])["params"][0])[0]
-                    b = pat_binds(strip(i["args"][0])["params"][0])[0]
-                    N = e1.Norm(c, {a[1]: Rat.atom("a_i"), b[1]: Rat.atom("b_j")})
-                    val = N.norm(strip(i["args"][0])["body"])
-                    ok = val == Rat.atom("a_i") * Rat.atom("b_j")
-                    detail = "product[i][j] = %s" % val
-    ctx.check("R15.3", "product", ok, "outer-product-form-not-a_i*b_j", where, detail, "could not establish product[i][j] = a_i*b_j: " + detail)
-    lit = [x for x in walk(fn["body"]) if x.get("k") == "struct" and x["path"].endswith("tensor::Tensor")]
-    sh = pretty(dict((a, e) for a, e in lit[0]["fs"])["shape"]) if lit else ""
-    ctx.check("R15.3", "product-shape", sh == "tensor::Shape::Double(data.len(), data[0].len())", "product-shape:" + sh, where, sh)
-    # ---- dot
-    fn = ctx.fn(T + "dot")
+    # ---- product and dot, decided on E6 effect summaries (map/collect chains and push loops alike)
+    from .. import e6
+    SD, OD = ("field", ("p", "self"), "data"), ("field", ("p", "other"), "data")
+
+    def result_of(fnpath, want_self, want_other):
+        fn_ = ctx.fn(fnpath)
+        E_ = e6.Exec(c, fn_)
+        out = []
+        for p_ in E_.run_fn():
+            if p_.exit is not None and p_.exit[0] != "return":
+                continue
+            vs = e6.variant_of(p_)
+            val_ = p_.val if p_.exit is None else p_.exit[1]
+            out.append((vs.get(SD), vs.get(OD), val_))
+        return fn_, E_, out
+
+    def struct_fields(val_):
+        if isinstance(val_, tuple) and val_ and val_[0] == "struct":
+            return dict(val_[2])
+        return {}
+
+    def ctor_arg(t, name):
+        if isinstance(t, tuple) and t and t[0] in ("var", "call") and t[1].endswith(name):
+            return t[2]
+        return None
+    fn, E, res = result_of(T + "product", "Single", "Single")
     where = c.loc(fn)
-    maps = [x for x in walk(fn["body"]) if x.get("k") == "mcall" and x["name"] == "map"]
-    ok, detail = False, ""
-    pats = [x for x in walk(fn["body"]) if x.get("k") == "match"]
-    roots = {}
-    for mm in pats:
-        for a in mm["arms"]:
-            vp, binds = e4.arm_variant(a)
-            if vp == "tensor::Data::Double" and "self" in pretty(mm["scrut"]):
-                roots["M"] = binds[0][1]
-            if vp == "tensor::Data::Single" and "other" in pretty(mm["scrut"]):
-                roots["x"] = binds[0][1]
-    if len(maps) == 2 and len(roots) == 2:
-        o = [x for x in maps if any(y is not x and y.get("k") == "mcall" and y["name"] == "map" for y in walk(x["args"][0]))][0]
-        i = [x for x in maps if x is not o][0]
-        so = strip(o["recv"])
-        row = pat_binds(strip(o["args"][0])["params"][0])[0]
-        si = strip(i["recv"])
-        good_src = (so.get("k") == "mcall" and so["name"] == "iter" and e4.local_hid(so["recv"]) == roots["M"]
-                    and si.get("k") == "mcall" and si["name"] == "zip"
-                    and strip(si["recv"]).get("name") == "iter" and e4.local_hid(strip(si["recv"])["recv"]) == row[1]
-                    and strip(si["args"][0]).get("name") == "iter" and e4.local_hid(strip(si["args"][0])["recv"]) == roots["x"])
-        summed = any(x.get("k") == "mcall" and x["name"] == "sum" and strip(x["recv"]) is i for x in walk(fn["body"]))
-        if good_src and summed:
-            ab = pat_binds(strip(i["args"][0])["params"][0])
-            N = e1.Norm(c, {ab[0][1]: Rat.atom("M_ij"), ab[1][1]: Rat.atom("x_j")})
-            val = N.norm(strip(i["args"][0])["body"])
-            ok = val == Rat.atom("M_ij") * Rat.atom("x_j")
-            detail = "dot_i = sum_j %s" % val
+    live = [(a, b, v) for (a, b, v) in res]
+    ok = okshape = len(live) == 1 and live[0][0] == "tensor::Data::Single" and live[0][1] == "tensor::Data::Single"
+    detail = "%d non-panicking path(s)" % len(live)
+    if ok:
+        A, B = ("payload", SD, "tensor::Data::Single", 0), ("payload", OD, "tensor::Data::Single", 0)
+        f = struct_fields(live[0][2])
+        d = ctor_arg(f.get("data"), "Data::Double")
+        X = d[0] if d else None
+        o_ = e6.elementwise_sequence(E, X) if X is not None else None
+        i_ = e6.elementwise_sequence(E, o_[1]) if o_ else None
+        ok = o_ is not None and i_ is not None and o_[0] == A and i_[0] == B and i_[1] == e6.mk_bin("Mul", o_[2], i_[2])
+        detail = "product[i][j] = %s" % (e6.show(i_[1], 2) if i_ else "?")
+        sh = ctor_arg(f.get("shape"), "Shape::Double")
+        lenf = lambda t_: e6.is_call(t_, "len", 1)[0] if e6.is_call(t_, "len", 1) else None
+        okshape = bool(sh) and len(sh) == 2 and ((lenf(sh[0]) == X and lenf(sh[1]) == ("idx", X, ("lit", "0"))) or (lenf(sh[0]) == A and lenf(sh[1]) == B))
+    ctx.check("R15.3", "product", ok, "outer-product-form-not-a_i*b_j", where, detail, "could not establish product[i][j] = a_i*b_j: " + detail)
+    ctx.check("R15.3", "product-shape", okshape, "product-shape", where, "shape = Double(rows, columns) of the produced matrix")
+    fn, E, res = result_of(T + "dot", "Double", "Single")
+    where = c.loc(fn)
+    ok = okshape = len(res) == 1 and res[0][0] == "tensor::Data::Double" and res[0][1] == "tensor::Data::Single"
+    detail = "%d non-panicking path(s)" % len(res)
+    if ok:
+        M, V = ("payload", SD, "tensor::Data::Double", 0), ("payload", OD, "tensor::Data::Single", 0)
+        f = struct_fields(res[0][2])
+        d = ctor_arg(f.get("data"), "Data::Single")
+        X = d[0] if d else None
+        o_ = e6.elementwise_sequence(E, X) if X is not None else None
+        ok = False
+        if o_ is not None and o_[0] == M:
+            sm = e6.is_call(o_[1], "sum", 1)
+            mp = e6.is_call(sm[0], "map", 2) if sm else None
+            zp = e6.is_call(mp[0], "zip", 2) if mp else None
+            if zp and zp[0] == o_[2] and zp[1] == V and isinstance(mp[1], tuple) and mp[1][0] == "closure":
+                CS = E.loop_summaries.get("cl%s" % mp[1][1])
+                if CS and len(CS["paths"]) == 1 and CS["paths"][0].exit is None and not CS["paths"][0].pc:
+                    el = ("elem", CS["recv"], "cl%s" % mp[1][1])
+                    ok = CS["paths"][0].val == e6.mk_bin("Mul", e6.mk_proj(el, 0), e6.mk_proj(el, 1))
+                    detail = "dot_i = sum_j %s" % e6.show(CS["paths"][0].val, 2)
+        sh = ctor_arg(f.get("shape"), "Shape::Single")
+        okshape = bool(sh) and len(sh) == 1 and e6.is_call(sh[0], "len", 1) is not None and e6.is_call(sh[0], "len", 1)[0] in (X, M)
     ctx.check("R15.3", "dot", ok, "dot-form-not-sum_j-M_ij*x_j", where, detail, "could not establish dot_i = sum_j M_ij*x_j " + detail)
-    lit = [x for x in walk(fn["body"]) if x.get("k") == "struct" and x["path"].endswith("tensor::Tensor")]
-    sh = pretty(dict((a, e) for a, e in lit[0]["fs"])["shape"]) if lit else ""
-    ctx.check("R15.3", "dot-shape", sh == "tensor::Shape::Single(data.len())", "dot-shape:" + sh, where, sh)
+    ctx.check("R15.3", "dot-shape", okshape, "dot-shape", where, "shape = Single(number of rows)")
     # ---- transpose
     fn = ctx.fn(T + "transpose")
     where = c.loc(fn)
